@@ -13,6 +13,9 @@ CHECKS = {
  "C08": dict(engine="tlc+replay+tracecheck", technique="TLA+ bundle layout specification model-checked by TLC (decomposition inverts composition); enumerated and random bundles replayed into rtosc_bundle and the element API; observations trace-validated by TLC",
     text="OscWire.tla defines EncBundle and the element walk from the layout rules; TLC checks on every generated bundle (0..3 elements from a message pool and nested bundles) that decomposition inverts composition, sizes, time tag, total length, and that no message is taken for a bundle; the real rtosc_bundle / bundle_p / elements / fetch / size / timetag / message_length run on each and on seeded random bundles (0..8 elements, nesting 0..4, random time tags) and TLC judges the observations",
     note="a bundle used as an element is followed by one zero word (the element API takes no length); variadic rtosc_bundle driven with 0..8 elements", ref="DESIGN.md 4 C08"),
+ "C07": dict(engine="tlc+replay+tracecheck", technique="TLA+ decoder (OscWire.tla) as the independent OSC decoder; TLC enumerates mutated/small byte strings (OscMutate.tla); real validator and accessors run on each under ASan; observations trace-validated by TLC",
+    text="TLC enumerates byte strings (all 1- and 2-step mutations of a pool of well-formed messages: truncation at every offset, every byte to boundary values, aligned words to extreme lengths, word insert/delete; every buffer up to length 8 over a small alphabet; every tail behind a fixed header) and the driver adds seeded structure-aware random mutants up to 512 bytes; each buffer is placed in an exact-size heap block against ASan's red zone; TLC judges no out-of-bounds read, termination, length in {0} u 1..n, and for accepted buffers decodability by the specification's decoder and equality of every accessor result with it",
+    note="bounded enumeration + random mutation; ASan decides out-of-bounds reads; 2 s watchdog decides termination; padding content is not compared (lenient reference decoder)", ref="DESIGN.md 4 C07"),
 }
 NOT_APPLICABLE = []
 def main():
